@@ -4,7 +4,7 @@ case = {'clocks': [tempo, ...],
         'threads': [[op, ...], ...],     thread 0 is the main thread (driver)
         'tape': [...], 'horizon': seconds}
 ops: ['sleep', d] | ['sched', clock, delta, task] | ['sched_abs', clock, off,
-     task] | ['clear', clock] | ['stop', i] | ['tempo', i, v]
+     task] | ['clear', clock] | ['stop', i] | ['tempo'|'etempo', i, v]
 clock: 'sys' | 'app' | int (TempoClock index)
 task: an id into case['tasks'] = {id: {'rets': [...], 'do': [ops],
 'routine': bool}}; the same id scheduled again uses the same object (the
@@ -145,7 +145,7 @@ def run(sim, case):
             c = clocks[op[1]]
             rec(ev='stop', who=who, clock=op[1])
             c.stop()
-        elif k == 'tempo':
+        elif k in ('tempo', 'etempo'):
             c = clocks[op[1]]
             # (the setter is several steps: where exactly a concurrent call
             # of another thread falls between this marker and the record
@@ -153,7 +153,12 @@ def run(sim, case):
             rec(ev='tempo_start', who=who, clock=op[1])
             try:
                 b = c.beats
-                c.tempo = op[2]
+                if k == 'etempo':
+                    # tempo change at the physical present, which is the
+                    # logical time of the main thread, the only caller
+                    c.etempo(op[2])
+                else:
+                    c.tempo = op[2]
                 rec(ev='tempo', who=who, clock=op[1], tempo=op[2], beats=b,
                     L=main.current_tt._seconds - l0)
             except clk.ClockNotRunning:
